@@ -141,6 +141,12 @@ pub enum Fault {
         kind: OpKind,
         errno: i32,
     },
+    /// the nth (1-based) file write of the selected process accepts only part of the buffer
+    /// (a short write: legal for write(2), e.g. when space or a size limit runs out)
+    ShortWrite {
+        target: ProcSel,
+        nth: u32,
+    },
 }
 
 #[derive(Clone, Debug)]
@@ -278,6 +284,7 @@ pub struct Stats {
     pub kills: u64,
     pub injected_errors: u64,
     pub short_reads: u64,
+    pub short_writes: u64,
     pub clock_jumps: u64,
     pub pipe_blocks: u64,
     pub lock_waits: u64,
@@ -642,6 +649,20 @@ impl State {
             rec.errno = e;
             err(e)
         })
+    }
+
+    /// Does the fault plan cut short the file write being executed now (count kept by `inject`)?
+    pub fn short_write_now(&mut self, pid: Pid) -> bool {
+        let n = self.procs[pid as usize].kind_counts.get(&OpKind::Write).copied().unwrap_or(0);
+        let mut hit = false;
+        for f in &self.cfg.faults {
+            if let Fault::ShortWrite { target, nth } = f {
+                if *nth == n && self.sel_matches(target, pid) {
+                    hit = true;
+                }
+            }
+        }
+        hit
     }
 
     /// Release everything a dying process holds. Orphaned children keep running.
